@@ -125,31 +125,68 @@ var c02Classes = []c02Class{
 		},
 	},
 	{
-		// Simplify: removeNegateTest knows == and != but not the short form =,
-		// and the walk rewrites = into == only after the enclosing negation
-		// was inspected: `[[ ! a = b ]]` needs two runs of shfmt -s.
-		name:  "simplify-negated-short-match-two-steps",
-		cfg:   func(_ synt.Config, simplify bool) bool { return simplify },
-		shape: func(x *c02Input) bool { return c02NegatedMatch(x.f, syntax.TsMatchShort) },
+		// Simplify: removeNegateTest knows == and != but not the short form =
+		// (the walk rewrites = into == only after the enclosing negation was
+		// inspected), and after removing a double negation it does not look
+		// at what is left: `[[ ! a = b ]]` and `[[ ! ! ! -n a ]]` need two
+		// runs of shfmt -s.
+		name: "simplify-negated-test-two-steps",
+		cfg:  func(_ synt.Config, simplify bool) bool { return simplify },
+		shape: func(x *c02Input) bool {
+			return c02Negation(x.f, func(t syntax.TestExpr) bool {
+				if b, ok := t.(*syntax.BinaryTest); ok && b.Op == syntax.TsMatchShort {
+					return true // ! a = b
+				}
+				// ! ! <something a negation merges with>
+				u, ok := t.(*syntax.UnaryTest)
+				return ok && u.Op == syntax.TsNot && c02MergeableNegation(u.X)
+			})
+		},
 		change: func(x *c02Input, p1, p2 string) bool {
-			f1, err := synt.Parse(p1, x.lang)
-			return err == nil && c02NegatedMatch(f1, syntax.TsMatch) && strings.Contains(p2, "!=")
+			// P1 still holds a negation that Simplify merges; P2 no longer
+			f1, err1 := synt.Parse(p1, x.lang)
+			f2, err2 := synt.Parse(p2, x.lang)
+			return err1 == nil && err2 == nil && c02Negation(f1, c02MergeableNegand) && !c02Negation(f2, c02MergeableNegand)
 		},
 	},
 	{
 		// A command substitution (in practice: backquotes) whose closing
-		// delimiter is on the line where the last here-document of its last
-		// statement ends: nestedStmts sees no line break before the closing
-		// delimiter and keeps "$(cmd <<EOF" on one line, but the pending
-		// here-document forces ")" onto its own line, so the second pass does
-		// see the break and moves the statement to its own line as well.
-		name:  "heredoc-ends-on-closing-line-of-cmdsubst",
+		// delimiter is on the line where the here-document of its last
+		// statement ends, or on the line of a trailing comment: nestedStmts
+		// sees no line break before the closing delimiter and keeps
+		// "$(cmd <<EOF" / "$(cmd # c" on one line, but the pending
+		// here-document or comment forces ")" onto its own line, so the second
+		// pass does see the break and moves the statement to its own line too.
+		name:  "cmdsubst-closed-on-line-of-heredoc-end-or-comment",
 		cfg:   func(cfg synt.Config, _ bool) bool { return !cfg.Single && !cfg.Minify },
-		shape: func(x *c02Input) bool { return c02HeredocEndsAtClose(x.f) },
+		shape: func(x *c02Input) bool { return c02ClosedOnForcedNewlineLine(x.f) },
 		change: func(_ *c02Input, p1, p2 string) bool {
 			// only white space is added (a line break and indentation after "$(")
 			return strings.Count(p2, "\n") > strings.Count(p1, "\n") &&
 				strings.Join(strings.Fields(p1), "") == strings.Join(strings.Fields(p2), "")
+		},
+	},
+	{
+		// SwitchCaseIndent: comments between the last case item and esac that
+		// are aligned with esac (CaseClause.Last) are printed at the items'
+		// level, one deeper than esac. The parser assigns trailing comments by
+		// column: not aligned with esac any more, they now belong to the last
+		// item and are printed yet another level deeper.
+		name:  "case-indent-comment-before-esac-changes-owner",
+		cfg:   func(cfg synt.Config, _ bool) bool { return cfg.CaseInd && !cfg.Minify },
+		shape: func(x *c02Input) bool { return c02CaseLastComments(x.f) },
+		change: func(_ *c02Input, p1, p2 string) bool {
+			// only the indentation of comment lines changes
+			norm := func(p string) string {
+				lines := strings.Split(p, "\n")
+				for i, l := range lines {
+					if t := strings.TrimLeft(l, " \t"); strings.HasPrefix(t, "#") {
+						lines[i] = t
+					}
+				}
+				return strings.Join(lines, "\n")
+			}
+			return norm(p1) == norm(p2)
 		},
 	},
 	{
@@ -374,33 +411,77 @@ func c02NestedOpenParenSameLine(f *syntax.File) bool {
 	return found
 }
 
-// c02NegatedMatch: a [[ ]] negation applied directly to a binary test with
-// the given operator.
-func c02NegatedMatch(f *syntax.File, op syntax.BinTestOperator) bool {
+// c02Negation: some [[ ]] negation whose operand satisfies f.
+func c02Negation(f *syntax.File, pred func(syntax.TestExpr) bool) bool {
 	found := false
 	syntax.Walk(f, func(n syntax.Node) bool {
-		if u, ok := n.(*syntax.UnaryTest); ok && u.Op == syntax.TsNot {
-			if b, ok := u.X.(*syntax.BinaryTest); ok && b.Op == op {
-				found = true
-			}
+		if u, ok := n.(*syntax.UnaryTest); ok && u.Op == syntax.TsNot && pred(u.X) {
+			found = true
 		}
 		return !found
 	})
 	return found
 }
 
-// c02HeredocEndsAtClose: a command substitution spanning several lines whose
-// last statement holds a here-document and ends on the line of the closing
-// delimiter.
-func c02HeredocEndsAtClose(f *syntax.File) bool {
+// c02MergeableNegand: Simplify merges a negation with this operand.
+func c02MergeableNegand(t syntax.TestExpr) bool {
+	switch t := t.(type) {
+	case *syntax.UnaryTest:
+		return t.Op == syntax.TsNot || t.Op == syntax.TsEmpStr || t.Op == syntax.TsNempStr
+	case *syntax.BinaryTest:
+		return t.Op == syntax.TsMatch || t.Op == syntax.TsNoMatch
+	}
+	return false
+}
+
+// c02MergeableNegation: a negation that Simplify merges with its operand
+// (also after = became ==).
+func c02MergeableNegation(t syntax.TestExpr) bool {
+	u, ok := t.(*syntax.UnaryTest)
+	if !ok || u.Op != syntax.TsNot {
+		return false
+	}
+	if b, ok := u.X.(*syntax.BinaryTest); ok && b.Op == syntax.TsMatchShort {
+		return true
+	}
+	return c02MergeableNegand(u.X)
+}
+
+// c02ClosedOnForcedNewlineLine: a command substitution whose closing
+// delimiter is on the line where its last statement ends, that statement
+// holding a here-document (then the substitution spans several lines) or
+// being followed by a comment.
+func c02ClosedOnForcedNewlineLine(f *syntax.File) bool {
 	found := false
 	syntax.Walk(f, func(n syntax.Node) bool {
 		cs, ok := n.(*syntax.CmdSubst)
-		if !ok || len(cs.Stmts) == 0 || len(cs.Last) > 0 {
+		if !ok || len(cs.Stmts) == 0 || cs.TempFile || cs.ReplyVar {
 			return !found
 		}
 		st := cs.Stmts[len(cs.Stmts)-1]
-		if cs.Right.Line() > cs.Left.Line() && st.End().Line() == cs.Right.Line() && c02HasHeredoc(st) {
+		var com *syntax.Comment
+		if len(cs.Last) > 0 {
+			com = &cs.Last[len(cs.Last)-1]
+		} else if k := len(st.Comments); k > 0 && st.Comments[k-1].End().After(st.End()) {
+			com = &st.Comments[k-1]
+		}
+		switch {
+		case com != nil:
+			found = found || com.End().Line() == cs.Right.Line()
+		case c02HasHeredoc(st):
+			found = found || cs.Right.Line() > cs.Left.Line() && st.End().Line() == cs.Right.Line()
+		}
+		return !found
+	})
+	return found
+}
+
+// c02CaseLastComments: a case clause with items and comments before esac
+// that the parser left to the clause (CaseClause.Last).
+func c02CaseLastComments(f *syntax.File) bool {
+	found := false
+	syntax.Walk(f, func(n syntax.Node) bool {
+		if cc, ok := n.(*syntax.CaseClause); ok && len(cc.Items) > 0 && len(cc.Last) > 0 {
 			found = true
 		}
 		return !found
